@@ -62,6 +62,20 @@ PROPS["C14"] = _stage("C14", ["C14_inactive_is_noop", "C14_inactive_start", "C14
                       "timeout,noop,limit_data,latency", "toxics/toxic.go: ToxicStub.Run (one draw per start, toxic or noop)")
 
 
+PROPS["C07"] = {
+    "lean_modules": ["Toxi.Proofs.C07", "Toxi.Proofs.C03"],
+    "theorems": ["Toxi.Toxic." + t for t in ["C07_step_never_crashes", "C07_run_never_crashes", "start_wf", "step_wf_lossy",
+                                              "step_conserves", "chunk_total", "bwLoop_ok", "C07_slicer_variation_diverges",
+                                              "C07_bandwidth_negative_rate_panics", "C07_latency_huge_jitter_panics",
+                                              "C12_unguarded_diverges"]] + ["Toxi.Proxy.C07_transient_accept_error_keeps_accepting", "Toxi.Proxy.C03_down"],
+    "engines": [{"engine": "e2", "gotest": True, "args": ["-props", "C07"], "tag": "C07wild"},
+                {"engine": "e9", "args": [], "tag": "C07proc"},
+                {"engine": "e4", "args": ["-props", "C05,C06"], "tag": "C07api"}],
+    "needs_gotest": True,
+    "model_scope": "toxics/*.go Pipe functions with attribute values over the whole int64 range",
+    "assumptions": _E2_ASSUME,
+}
+
 _E4_ASSUME = [
     "encoding/json is modelled only in the subset the handlers use (object-into-struct decoding with case-insensitive keys, last duplicate wins, unknown keys ignored, null no-op, type errors skip the field and are reported at the end); JSON text syntax is not modelled (the harness classifies a body as invalid with encoding/json itself)",
     "gorilla/mux routing (404 / 405 before middleware), http.TimeoutHandler, net.Listen / net.ResolveTCPAddr behaviour are environment: address tables are measured on every run and passed to the model",
@@ -184,6 +198,7 @@ _TIES = {
     "C04": ["tie_chain_ops", "tie_add", "tie_update_link", "tie_remove", "tie_toxics"],
     "C05": ["tie_routes", "tie_routeMethods", "tie_browser_middleware", "tie_errors", "tie_defaults", "tie_toxics", "tie_toxic_json", "tie_collection"],
     "C06": ["tie_errors", "tie_toxic_json", "tie_collection", "tie_update"],
+    "C07": ["tie_server", "tie_toxics", "tie_routes"],
     "C08": ["tie_toxics", "tie_run"], "C09": ["tie_toxics"], "C10": ["tie_toxics"], "C11": ["tie_toxics"],
     "C12": ["tie_toxics"], "C13": ["tie_toxics", "tie_link_start"],
     "C14": ["tie_run", "tie_toxic_json", "tie_chain_ops", "tie_update_link"],
